@@ -151,6 +151,35 @@ def r2_skip_sets(ctx: Ctx) -> None:
     lo = ctx.repo.func(SST, "lex_operand")
     runs = [const_str(c.args[0]) for c in calls_in(lo.node) if call_name(c) == "s.ignore_run"]
     ctx.check(len(runs) >= 3 and all(r == " " for r in runs), "lex_operand:spaces", "spaces are skipped after the opening bracket, before the closing one and before the index comma")
+    # every point at which the closing bracket or the index comma is looked for is preceded by a space skip, whichever path led there
+    from ..cfg import CFG
+    glo = CFG(lo.node)
+    skips = [glo.node_containing(c) for c in calls_in(lo.node) if call_name(c) == "s.ignore_run" and const_str(c.args[0]) == " "]
+    consumers = [glo.node_containing(c) for c in calls_in(lo.node) if call_name(c) in ("lex_expression", "lex_opcode_index", "s.next", "s.emit")]
+    looks = []
+    for nid, n in glo.nodes.items():
+        if n.kind == "test" and ("s.accept(',')" in unparse(n.ast) or "== ')'" in unparse(n.ast)):
+            looks.append(nid)
+        if n.kind == "stmt" and isinstance(n.ast, ast.Assign) and unparse(n.ast.value) == "s.peek()" and nid != min(glo.nodes):
+            looks.append(nid)
+    for ln in looks:
+        # no consuming step reaches the look-ahead without passing a space skip
+        bad = [c for c in consumers if c != ln and ln in glo.reachable([m for m, _ in glo.succ[c]], blocked=skips)]
+        first_peek = [nid for nid, n in glo.nodes.items() if n.kind == "stmt" and isinstance(n.ast, ast.Assign) and unparse(n.ast.value) == "s.peek()"]
+        if first_peek and ln == min(first_peek):
+            continue  # the very first look at the operand happens after lex_opcode's own skip
+        ctx.count("lookaheads")
+        ctx.check(not bad, f"lex_operand:space-skip-before `{glo.nodes[ln].text()[:30]}`",
+                  "after every consumed piece of the operand, spaces are skipped before the next bracket / comma is looked for (`(0x03,s ),y` == `(0x03,s),y`)")
+    ao = ctx.repo.func(SST, "accept_opcode")
+    followers = None
+    for n in walk_no_nested(ao.node):
+        if isinstance(n, ast.Compare) and isinstance(n.ops[0], ast.In) and unparse(n.left) == "is_ws" and isinstance(n.comparators[0], (ast.Tuple, ast.List, ast.Set)):
+            followers = {const_str(e) if const_str(e) is not None else unparse(e) for e in n.comparators[0].elts}
+    if followers is None:
+        raise AnalysisError("accept_opcode: the set of characters that may follow a mnemonic was not found")
+    need = {" ", "\t", "\n", ".", ";", "EOF"}
+    ctx.check(need <= followers, "accept_opcode:followers", f"a mnemonic may be followed by space, tab, newline, end of input, '.' (size suffix) or ';' (comment); missing {sorted(need - followers)}")
     le = ctx.repo.func(SST, "lex_expression")
     lp = [n for n in walk_no_nested(le.node) if isinstance(n, ast.While)]
     ok = len(lp) == 1 and unparse(lp[0].body[0]) == "s.ignore_run(' ')"
